@@ -90,6 +90,27 @@ def generate(rng, tier):
                 steps.append({"x": rng.choice(xs + [_rand(rng, k)]), "y": rng.choice(ys + [_rand(rng, k)]), "xmin": lo, "ymin": ylo, "xmax": hi, "ymax": yhi,
                               "tol": tol if rng.random() < 0.8 else tol * 2, "how": rng.choice(["inner", "inner", "outer"])})
         cases.append({"kind": "pibseq", "steps": steps, "family": "point_in_bounds/bounds-object-changed-in-place"})
+    # consecutive calls on different numbers with equal hashes (hash(-1) == hash(-2) for ints, floats and Fractions; hash(n) == hash(n +
+    # 2^61 - 1)): every answer belongs to the arguments of its own call
+    P = 2**61 - 1
+    for _ in range(max(12, n // 4)):
+        a, b = rng.choice([(F(-1), F(-2)), (F(-2), F(-1)), (F(-1), F(-2)), (F(3), F(3 + P)), (F(3 + P), F(3))])
+        tol = rng.choice([F(0), F(1, 4), F(1, 8)])
+        v = (a + b) / 2 if abs(a - b) == 1 else F(100)
+        as_lower = rng.random() < 0.5 and abs(a - b) == 1
+        for first, second in ((a, b), (b, a)):
+            steps = []
+            for bound in (first, second):
+                lo, hi = (bound, F(10)) if as_lower else (F(-10), bound)
+                steps.append({"x": v, "y": F(5), "xmin": lo, "ymin": F(0), "xmax": hi, "ymax": F(10), "tol": tol, "how": "outer"})
+            if rng.random() < 0.5:
+                steps = [{"x": st["y"], "y": st["x"], "xmin": st["ymin"], "ymin": st["xmin"], "xmax": st["ymax"], "ymax": st["xmax"], "tol": tol, "how": "outer"} for st in steps]
+            cases.append({"kind": "pibseq", "steps": steps, "family": "point_in_bounds/after-a-call-on-hash-equal-numbers"})
+            lo1, hi1 = (first, F(10)) if as_lower else (F(-10), first); lo2, hi2 = (second, F(10)) if as_lower else (F(-10), second)
+            for kind in ("check", "tol", "con"):
+                c = {"kind": kind, "v": v, "lo": lo2, "hi": hi2, "family": kind + "/after-a-call-on-hash-equal-numbers", "pre": {"kind": kind, "v": v, "lo": lo1, "hi": hi1, "tol": tol}}
+                if kind == "tol": c["tol"] = tol
+                cases.append(c)
     return cases
 
 def _conv(x, mode):
@@ -98,6 +119,9 @@ def _conv(x, mode):
 
 def run_impl(c):
     k = c["kind"]
+    if "pre" in c:
+        try: run_impl(dict(c["pre"], float=c.get("float", False)))
+        except Exception: pass
     if c.get("float"):
         c = {key: (float(v) if isinstance(v, F) else v) for key, v in c.items()}
     if k == "check":
